@@ -26,7 +26,7 @@ def model(ctx):
                    'exactly Rat.RoundInt for all 8 modes and both signs on the grid', exhaustive=True)
 
 
-def _stage(cs, codes):
+def _stage(cs, codes, groups=None):
     import qvimport
     qvimport.install('guard')
     import quantity.money  # noqa: F401
@@ -36,14 +36,28 @@ def _stage(cs, codes):
     def one(c):
         ev = money.run_case(w, c)
         return ev, qvimport.drain_div_events()
-    return forkpool.forkmap(one, cs, batch=400)
+    if groups is None:
+        return forkpool.forkmap(one, cs, batch=400)
+    # cases of one group share one child process (they build on common declarations)
+    res = forkpool.forkmap(lambda idxs: [one(cs[i]) for i in idxs], groups, batch=1)
+    out = [None] * len(cs)
+    for idxs, r in zip(groups, res):
+        for j, i in enumerate(idxs):
+            out[i] = r[j] if isinstance(r, list) else r
+    return out
 
 
-def judge(ctx, cs, what, codes=CODES, confirm=True):
+def judge(ctx, cs, what, codes=CODES, confirm=True, group=None):
     from adapters import money
     for j, c in enumerate(cs):
         c['id'] = '%s:%d' % (what, j)
-    res = forkpool.run_stage(_stage, cs, codes)
+    groups = None
+    if group is not None:
+        g = {}
+        for j, c in enumerate(cs):
+            g.setdefault(group(c), []).append(j)
+        groups = list(g.values())
+    res = forkpool.run_stage(_stage, cs, codes, groups)
     evs, byid, divcases = [], {}, []
     for c, r in zip(cs, res):
         if isinstance(r, dict):
@@ -147,6 +161,9 @@ def brief(e):
         return '%s %s , %s' % (op, rate_text(e['r1']), rate_text(e['r2']))
     if op == 'rate_eq':
         return brief_eq(e)
+    if op == 'price_rate':
+        return 'price %s: %s %s/%s, rate %s, declared %s' % (e['form'], F(e['p']['n'], e['p']['d']), e['p']['c'] if e['p']['ismoney'] else '(mass)',
+                                                            e['p']['m'], rate_text(e['r']), ['%s/%s' % (d['c'], d['m']) for d in e['decl']])
     if op == 'rate_invert':
         return 'invert ' + rate_text(e['r'])
     if op == 'mix':
